@@ -419,6 +419,9 @@ class Generator:
         self._emit_with_edits(src, item.kw, end, edits)
         w.emit("\n")
         if "derive_clone" in unit.flags:
+            derives = " ".join(text_of(src, a, b) for a, b in item.attrs)
+            if not re.search(r"derive\s*\([^)]*\bClone\b", derives):
+                raise ShapeError("%s: unit assumes #[derive(Clone)] (T6) but the type no longer derives Clone" % unit.name)
             generics, params = self._generics_of(src, item)
             w.emit(
                 "impl%s Clone for %s%s {\n    #[verifier::external_body]\n    fn clone(&self) -> (r: Self)\n        ensures r == *self\n    { unimplemented!() }\n}\n"
@@ -697,7 +700,7 @@ class Generator:
                     unit.has_requires = True
             w.emit("\n".join(spec) + "\n")
         # ---- body with insertions
-        if "external_body" in flags:
+        if "external_body" in flags and "keep_body" not in flags:
             w.emit("{ unimplemented!() }\n")
             self.dropped.append("%s: body of fn %s (%s) not extracted: assumed (external_body)" % (src.rel, item.name, unit.name))
         else:
